@@ -8,6 +8,7 @@ from .frontend import Repo, repo_root
 from .interp import Exec, explore, Path
 
 Z3_TIMEOUT_MS = int(os.environ.get('VERIF_Z3_TIMEOUT_MS', '20000'))
+_INCOMPLETE = z3.Bool('identification_incomplete!')
 CVC5 = '/usr/bin/cvc5'
 
 
@@ -151,27 +152,36 @@ class Ctx:
         if algebra is True:
             allt, _ = axioms.abstract_ufs(list(hyps) + lem + [neg])
             hyps, lem, neg = allt[:len(hyps)], allt[len(hyps):-1], allt[-1]
-        s = z3.Solver()
-        s.set('timeout', timeout or Z3_TIMEOUT_MS)
-        s.set('random_seed', 0)
-        s.add(*hyps)
-        s.add(*lem)
-        s.add(neg)
         t = time.time()
-        r = s.check()
+        r, s = z3.unknown, None
+        # portfolio inside z3: default arithmetic first, then the legacy arithmetic solver (much stronger on the non-linear
+        # real identities with uninterpreted functions that occur here)
+        budget = timeout or Z3_TIMEOUT_MS
+        for cfg, tmo in (({}, min(budget, 6000)), ({'arith.solver': 2}, budget)):
+            s = z3.Solver()
+            s.set('timeout', tmo)
+            s.set('random_seed', 0)
+            for k_, v_ in cfg.items():
+                s.set(k_, v_)
+            s.add(*hyps)
+            s.add(*lem)
+            s.add(neg)
+            r = s.check()
+            if r != z3.unknown:
+                break
         dt = time.time() - t
         self.solver_time += dt
         smt2 = ''
         if r == z3.unknown:
             smt2 = s.to_smt2()
-            r2, dt2 = run_cvc5(smt2)
+            r2, dt2, who = run_external(smt2)
             self.solver_time += dt2
             if r2 == 'unsat':
-                return 'unsat', 'cvc5', dt + dt2, None, smt2
+                return 'unsat', who, dt + dt2, None, smt2
             if r2 == 'sat':
-                # cvc5 gives no model through this path; try z3 again with another tactic for a model
-                return 'unknown', 'z3+cvc5(sat, no model)', dt + dt2, None, smt2
-            return 'unknown', 'z3+cvc5', dt + dt2, None, smt2
+                # no model through this path: the obligation stays undecided unless the concrete oracle refutes it
+                return 'unknown', f'z3+{who}(sat, no model)', dt + dt2, None, smt2
+            return 'unknown', 'z3+z3-4.8.12+cvc5', dt + dt2, None, smt2
         if r == z3.sat:
             return 'sat', 'z3', dt, s.model(), smt2
         return 'unsat', 'z3', dt, None, smt2
@@ -220,6 +230,7 @@ class Ctx:
             self.results.append(Obl(full, 'undecided', solver, dt, {'reason': 'solver returned unknown / timeout'}))
             return False
         # sat: a counter-model; prefer a small one for the replay
+        weak = any(isz(h) and h.eq(_INCOMPLETE) for h in hyps)
         if small:
             try:
                 st2, _, dt2, m2, _ = self._check(hyps + list(small), goal, extra_terms, timeout=5000, algebra=algebra)
@@ -239,6 +250,10 @@ class Ctx:
             detail['confirmed'] = bool(rep.get('confirmed'))
         else:
             detail['confirmed'] = False
+        if weak and not detail['confirmed']:
+            detail['reason'] = 'counter-model on a path where the identification of two operator applications (fft / filter outputs) could not be decided by the solver: not a violation'
+            self.results.append(Obl(full, 'undecided', solver, dt, detail))
+            return False
         self.results.append(Obl(full, 'violated', solver, dt, detail))
         return False
 
@@ -477,22 +492,53 @@ def model_summary(m, limit=40):
     return out
 
 
-def run_cvc5(smt2, timeout_s=30):
-    if not os.path.exists(CVC5):
-        return 'unknown', 0.0
-    txt = smt2
-    with tempfile.NamedTemporaryFile('w', suffix='.smt2', delete=False, dir=os.environ.get('TMPDIR', '/tmp')) as f:
-        f.write('(set-logic ALL)\n' + txt)
-        p = f.name
-    t = time.time()
+def run_external(smt2, timeout_s=20):
+    """second and third back end on the SMT-LIB export of a query: z3 4.8.12 (/usr/bin/z3) and cvc5 1.0.3, run concurrently.
+    Returns ('sat'|'unsat'|'unknown', seconds, solver name).  Only definite answers are used."""
+    t0 = time.time()
+    d = os.environ.get('TMPDIR', '/tmp')
+    procs = []
+    files = []
     try:
-        r = subprocess.run([CVC5, '--tlimit=%d' % (timeout_s * 1000), '--nl-ext-tplanes', p], capture_output=True, text=True, timeout=timeout_s + 5)
-        out = r.stdout.strip().split('\n')[0] if r.stdout.strip() else 'unknown'
-    except Exception:
-        out = 'unknown'
+        for name, cmd in (('z3-4.8.12', ['/usr/bin/z3', f'-T:{int(timeout_s)}']), ('cvc5', [CVC5, f'--tlimit={int(timeout_s * 1000)}', '--nl-ext-tplanes'])):
+            if not os.path.exists(cmd[0]):
+                continue
+            f = tempfile.NamedTemporaryFile('w', suffix='.smt2', delete=False, dir=d)
+            f.write(('(set-logic ALL)\n' if name == 'cvc5' else '') + smt2)
+            f.close()
+            files.append(f.name)
+            procs.append((name, subprocess.Popen(cmd + [f.name], stdout=subprocess.PIPE, stderr=subprocess.DEVNULL, text=True)))
+        deadline = t0 + timeout_s + 3
+        result = ('unknown', 0.0, '')
+        pending = list(procs)
+        while pending and time.time() < deadline:
+            for name, p in list(pending):
+                if p.poll() is not None:
+                    out = (p.stdout.read() or '').strip().split('\n')[0].strip()
+                    pending.remove((name, p))
+                    if out in ('sat', 'unsat'):
+                        result = (out, time.time() - t0, name)
+                        pending = []
+                        break
+            else:
+                time.sleep(0.02)
+                continue
+            break
+        return result if result[0] != 'unknown' else ('unknown', time.time() - t0, '')
     finally:
-        os.unlink(p)
-    return (out if out in ('sat', 'unsat') else 'unknown'), time.time() - t
+        for _, p in procs:
+            if p.poll() is None:
+                p.kill()
+        for fn_ in files:
+            try:
+                os.unlink(fn_)
+            except OSError:
+                pass
+
+
+def run_cvc5(smt2, timeout_s=30):
+    r, dt, _ = run_external(smt2, timeout_s)
+    return r, dt
 
 
 # ----------------------------------------------------------------------------------------- clause execution
